@@ -15,13 +15,19 @@ pub struct Triple {
 }
 
 pub struct Universe {
-    /// index 0 = absent ("und" for languages)
+    /// index 0 = absent ("und" for languages); then the subtags occurring in the CLDR data
+    /// (sorted), then the unknown representatives, then the extended unknowns
     pub langs: Vec<String>,
     pub scripts: Vec<String>,
     pub regions: Vec<String>,
     pub n_known_langs: usize,
     pub n_known_scripts: usize,
     pub n_known_regions: usize,
+    /// sizes of the core universe (absent + CLDR subtags + unknown representatives); the
+    /// entries beyond are well-formed subtags that do not occur in the data
+    pub n_core_langs: usize,
+    pub n_core_scripts: usize,
+    pub n_core_regions: usize,
 }
 
 pub struct Likely {
@@ -62,6 +68,9 @@ fn kind(t: &str) -> char {
 
 pub const UNKNOWN_LANGS: &[&str] = &["qq", "qqq", "qqqqq"];
 pub const UNKNOWN_SCRIPTS: &[&str] = &["Qqqq"];
+/// special-purpose codes and other well-formed subtags that the data may or may not mention
+pub const SPECIAL_LANGS: &[&str] = &["mul", "zxx", "mis", "sh", "tlh", "mo", "iw", "in", "ji", "abcdefgh", "undef", "rooot"];
+pub const SPECIAL_SCRIPTS: &[&str] = &["Zzzz", "Zyyy", "Zinh", "Zxxx", "Zsym", "Zmth", "Qaaa", "Qabx", "Brai", "Aran", "Latf", "Hanb"];
 pub const UNKNOWN_REGIONS: &[&str] = &["QQ", "999"];
 
 impl Likely {
@@ -120,6 +129,61 @@ impl Likely {
             }
             regions.push(u.to_string());
         }
+        let (n_core_langs, n_core_scripts, n_core_regions) = (langs.len(), scripts.len(), regions.len());
+        // extended unknowns: every two-letter language, every 7th three-letter language, the
+        // special codes; one-letter neighbours (first / last letter) of every known script and
+        // the special script codes; EVERY well-formed region (676 + 1000)
+        {
+            let mut have: BTreeSet<String> = langs.iter().cloned().collect();
+            let mut add = |v: String, have: &mut BTreeSet<String>, to: &mut Vec<String>| {
+                if have.insert(v.clone()) {
+                    to.push(v);
+                }
+            };
+            for s in SPECIAL_LANGS {
+                add(s.to_string(), &mut have, &mut langs);
+            }
+            for a in b'a'..=b'z' {
+                for b in b'a'..=b'z' {
+                    add(String::from_utf8(vec![a, b]).unwrap(), &mut have, &mut langs);
+                }
+            }
+            let mut k = 0u32;
+            for a in b'a'..=b'z' {
+                for b in b'a'..=b'z' {
+                    for c in b'a'..=b'z' {
+                        k += 1;
+                        if k % 7 == 3 {
+                            add(String::from_utf8(vec![a, b, c]).unwrap(), &mut have, &mut langs);
+                        }
+                    }
+                }
+            }
+            let mut have: BTreeSet<String> = scripts.iter().cloned().collect();
+            for s in SPECIAL_SCRIPTS {
+                add(s.to_string(), &mut have, &mut scripts);
+            }
+            let known: Vec<String> = scripts[1..n_known_scripts].to_vec();
+            for s in known {
+                let b = s.as_bytes();
+                let bump = |c: u8, lo: u8, hi: u8| if c == hi { lo } else { c + 1 };
+                let mut x = b.to_vec();
+                x[0] = bump(x[0], b'A', b'Z');
+                add(String::from_utf8(x).unwrap(), &mut have, &mut scripts);
+                let mut y = b.to_vec();
+                y[3] = bump(y[3], b'a', b'z');
+                add(String::from_utf8(y).unwrap(), &mut have, &mut scripts);
+            }
+            let mut have: BTreeSet<String> = regions.iter().cloned().collect();
+            for a in b'A'..=b'Z' {
+                for b in b'A'..=b'Z' {
+                    add(String::from_utf8(vec![a, b]).unwrap(), &mut have, &mut regions);
+                }
+            }
+            for n in 0..1000 {
+                add(format!("{n:03}"), &mut have, &mut regions);
+            }
+        }
         let li: BTreeMap<String, Id> = langs.iter().enumerate().map(|(i, s)| (s.clone(), i as Id)).collect();
         let si: BTreeMap<String, Id> = scripts.iter().enumerate().map(|(i, s)| (s.clone(), i as Id)).collect();
         let ri: BTreeMap<String, Id> = regions.iter().enumerate().map(|(i, s)| (s.clone(), i as Id)).collect();
@@ -137,7 +201,7 @@ impl Likely {
             Ok(t)
         };
         let mut me = Likely {
-            uni: Universe { langs, scripts, regions, n_known_langs, n_known_scripts, n_known_regions },
+            uni: Universe { langs, scripts, regions, n_known_langs, n_known_scripts, n_known_regions, n_core_langs, n_core_scripts, n_core_regions },
             version,
             entries: entries.clone(),
             und: None,
